@@ -700,18 +700,28 @@ func (ev *EvalCtx) evalCall(e ECall) TV {
 		arr := ev.seenArray(k.V.T.Sort, "")
 		return TV{V: scalar(Select(arr, k.V.T))}
 	case "gcount":
-		// gcount(name, key): value of ghost counter map `name` at key
-		argn(2)
+		// gcount(name, key[, key2]): value of the declared ghost counter map `name`
+		if len(e.Args) < 2 {
+			ev.fail("gcount(name, key...)")
+		}
 		id, ok := e.Args[0].(EIdent)
 		if !ok {
-			ev.fail("gcount(name, key)")
+			ev.fail("gcount(name, key...)")
 		}
-		k := ev.eval(e.Args[1])
-		if k.V.T == nil {
-			ev.fail("gcount key must be scalar")
+		var keys []*Term
+		for _, a := range e.Args[1:] {
+			k := ev.eval(a)
+			if k.V.T == nil {
+				ev.fail("gcount key must be scalar")
+			}
+			keys = append(keys, k.V.T)
 		}
-		arr := fc.ghost(ev.cur, "gmap:"+id.Name, ArrSort(k.V.T.Sort, SInt))
-		return TV{V: scalar(Select(arr, k.V.T))}
+		arr := ev.ghostMap(id.Name, keys)
+		cur := arr
+		for _, k := range keys {
+			cur = Select(cur, k)
+		}
+		return TV{V: scalar(cur)}
 	case "seencount":
 		// seencount(): number of keys the (unique) active map range has visited so far
 		argn(0)
@@ -994,6 +1004,44 @@ func (ev *EvalCtx) lookupPure(name string) *Block {
 	return nil
 }
 
+// ghostMap returns the current term of ghost counter map `name` (sort from its declaration, or from the keys).
+func (ev *EvalCtx) ghostMap(name string, keys []*Term) *Term {
+	return ev.fc.ghostMapIn(ev.cur, name, keys)
+}
+
+func (fc *FnCtx) ghostMapSort(name string, keys []*Term) Sort {
+	var ks []Sort
+	if decl, ok := fc.eng.db.Ghosts[name]; ok {
+		for _, d := range decl {
+			switch d {
+			case "string":
+				ks = append(ks, SStr)
+			case "mathint", "int":
+				ks = append(ks, SInt)
+			case "iface", "any":
+				ks = append(ks, SIface)
+			case "ptr":
+				ks = append(ks, SPtr)
+			default:
+				panic(evalErr{"ghost map " + name + ": unsupported key type " + d})
+			}
+		}
+	} else {
+		for _, k := range keys {
+			ks = append(ks, k.Sort)
+		}
+	}
+	srt := SInt
+	for i := len(ks) - 1; i >= 0; i-- {
+		srt = ArrSort(ks[i], srt)
+	}
+	return srt
+}
+
+func (fc *FnCtx) ghostMapIn(st *State, name string, keys []*Term) *Term {
+	return fc.ghost(st, "gmap:"+name, fc.ghostMapSort(name, keys))
+}
+
 // seenArray returns the ghost `seen` set of the (unique) active map range whose key sort is s.
 func (ev *EvalCtx) seenArray(s Sort, hint string) *Term {
 	var found *Term
@@ -1073,6 +1121,9 @@ func (ev *EvalCtx) evalLoc(e Expr) []locItem {
 		case "ghost":
 			id := e.Args[0].(EIdent)
 			return []locItem{{kind: "ghost", ghost: id.Name}}
+		case "gmap":
+			id := e.Args[0].(EIdent)
+			return []locItem{{kind: "ghost", ghost: "gmap:" + id.Name}}
 		case "anymapof":
 			// anymapof(m): every inner map of the map-of-maps m (all maps of m's element type)
 			x := ev.eval(e.Args[0])
@@ -1180,7 +1231,11 @@ func (fc *FnCtx) havocItems(st *State, items []locItem) {
 			c, cn := fc.mapCT(st, it.mapT)
 			st.heaps[cn] = fc.sc.Fresh("hvMC", c.Sort)
 		case "ghost":
-			st.ghosts[it.ghost] = fc.sc.Fresh("g_"+it.ghost, SInt)
+			srt := SInt
+			if strings.HasPrefix(it.ghost, "gmap:") {
+				srt = fc.ghostMapSort(strings.TrimPrefix(it.ghost, "gmap:"), nil)
+			}
+			st.ghosts[it.ghost] = fc.sc.Fresh("g_"+it.ghost, srt)
 		case "any-old":
 			fc.epochs++
 			st.hEpoch = fc.epochs
